@@ -422,6 +422,53 @@ func scenC09(r *Run) {
 			}
 			r.S.Probe("c09_author_case_" + c.kind)
 		}
+		// The same posts seen from below: somebody replies to each of them, the reply is opened and
+		// its thread loaded upwards. What stands above the reply is held to the same rule as a post
+		// opened directly.
+		type up struct {
+			c       pcase
+			childID string
+			parents []pub.Tangible
+			task    *Task
+		}
+		var ups []*up
+		for _, c := range cases {
+			if !t.Chance(1, 2) {
+				continue
+			}
+			pu := mustURL(c.id)
+			ph := pu.Hostname()
+			childID, _, _ := f.note(ph, Doc{"inReplyTo": c.id, "attributedTo": f.simpleActor(ph)})
+			ups = append(ups, &up{c: c, childID: childID})
+		}
+		for i, x := range ups {
+			x := x
+			x.task = r.Spawn(fmt.Sprintf("thread%d", i), func() {
+				if p, ok := pub.New(x.childID, nil).(*pub.Post); ok {
+					x.parents, _ = p.Parents(2)
+				}
+			})
+		}
+		r.Drive(r.AllTasksDone, hugeHorizon, 60000)
+		for _, x := range ups {
+			if !x.task.Done || len(x.parents) == 0 {
+				continue
+			}
+			par := x.parents[len(x.parents)-1] // the nearest ancestor comes last (oldest first)
+			for _, cand := range x.parents {
+				if tok, _ := itemToken(cand); tok == x.c.tok {
+					par = cand
+				}
+			}
+			tok, isErr := itemToken(par)
+			if x.c.wantErr && !isErr && tok == x.c.tok {
+				r.Violate("C09", "authors", "shown-with-foreign-author-as-parent:"+x.c.kind, fmt.Sprintf("post %s (%s) is refused when opened directly but shown as a genuine post above a reply to it", x.c.id, x.c.kind))
+			}
+			if !x.c.wantErr && x.c.kind != "author-fetch-fails" && (isErr || tok != x.c.tok) {
+				r.Violate("C09", "authors", "legitimate-parent-rejected:"+x.c.kind, fmt.Sprintf("post %s (%s) should stand above the reply to it; the thread shows %s", x.c.id, x.c.kind, describeItem(par)))
+			}
+			r.S.Probe("c09_parent_held_to_the_author_rule")
+		}
 	}
 }
 
